@@ -390,6 +390,120 @@ Proof.
   apply IH. intros g Hg. apply H. right. exact Hg.
 Qed.
 
+
+Lemma in_obj_get0 (m : list (string * json)) k v : NoDup (map fst m) -> In (k, v) m -> obj_get k m = Some v.
+Proof.
+  induction m as [|[k' v'] r IH]; intros Hnd Hin; [destruct Hin|].
+  cbn [obj_get]. inversion Hnd as [|? ? Hk Hnd']; subst.
+  destruct Hin as [E|Hin].
+  - inversion E; subst. rewrite String.eqb_refl. reflexivity.
+  - destruct (String.eqb_spec k k') as [->|Hne]; [|exact (IH Hnd' Hin)].
+    exfalso. apply Hk. change k' with (fst (k', v)). apply in_map. exact Hin.
+Qed.
+
+(* ---------- a struct whose members are plain fields and flattened fragment structs (named-fragment
+   spreads on the same object type), in any order *)
+Lemma keys_in_out_disjoint (names N : list string) (m : list (string * json)) :
+  (forall k, In k names -> ~ In k N) -> keys_in names (keys_out N m) = keys_in names m.
+Proof.
+  intros H. unfold keys_in, keys_out. induction m as [|[k v] r IH]; [reflexivity|]. cbn [filter fst].
+  destruct (mem_str k N) eqn:EN; cbn [negb].
+  - destruct (mem_str k names) eqn:En; [|exact IH].
+    exfalso. apply mem_str_In in EN. apply mem_str_In in En. exact (H k En EN).
+  - cbn [filter fst]. destruct (mem_str k names); [f_equal; exact IH|exact IH].
+Qed.
+
+Lemma keys_out_app (N1 N2 : list string) (m : list (string * json)) :
+  keys_out N2 (keys_out N1 m) = keys_out (N1 ++ N2) m.
+Proof.
+  unfold keys_out. induction m as [|[k v] r IH]; [reflexivity|]. cbn [filter fst].
+  assert (Hm : mem_str k (N1 ++ N2) = mem_str k N1 || mem_str k N2).
+  { clear. induction N1 as [|a l IHl]; [reflexivity|]. cbn [app mem_str]. destruct (String.eqb k a); [reflexivity|exact IHl]. }
+  rewrite Hm. destruct (mem_str k N1); cbn [negb orb]; [exact IH|].
+  cbn [filter fst]. destruct (mem_str k N2); cbn [negb]; [exact IH|f_equal; exact IH].
+Qed.
+
+Section MixedStruct.
+  Variables (D Dh : rtype -> json -> option rvalue) (env : list ritem).
+
+  (* the keys a flattened member takes *)
+  Definition names_of (fd : rfield) : list string :=
+    if f_flatten fd then
+      match strip_box (f_ty fd) with
+      | RNamed n => match find_item n env with Some (IStruct _ _ _ tf) => map field_wire tf | _ => [] end
+      | _ => []
+      end
+    else [].
+
+  Definition member_good (seen : list (string * rvalue)) (rest : list (string * json)) (fd : rfield) : Prop :=
+    if f_flatten fd then
+      exists n a b c tf, strip_box (f_ty fd) = RNamed n /\ find_item n env = Some (IStruct a b c tf) /\
+                         existsb f_flatten tf = false /\
+                         is_some (D (RNamed n) (JObj (keys_in (map field_wire tf) rest))) = true
+    else field_value seen fd <> None.
+
+  Lemma serve_mixed seen rest : forall fields,
+    (forall fd, In fd fields -> member_good seen rest fd) ->
+    NoDup (flat_map names_of fields) ->
+    forall N, (forall k, In k (flat_map names_of fields) -> ~ In k N) ->
+    is_some (serve D env seen fields (keys_out N rest)) = true.
+  Proof.
+    induction fields as [|fd more IH]; intros Hgood Hnd N HN; [reflexivity|].
+    cbn [serve]. pose proof (Hgood fd (or_introl eq_refl)) as Hfd. unfold member_good in Hfd.
+    cbn [flat_map] in Hnd, HN. apply NoDup_app_iff in Hnd. destruct Hnd as [Hn1 [Hn2 Hdis]].
+    destruct (f_flatten fd) eqn:Efl.
+    - destruct Hfd as [n [a [b [c [tf [Hty [Hfi [Hnf Hacc]]]]]]]].
+      rewrite Hty, Hfi, Hnf.
+      assert (Hnames : names_of fd = map field_wire tf) by (unfold names_of; rewrite Efl, Hty, Hfi; reflexivity).
+      rewrite keys_in_out_disjoint.
+      + destruct (D (RNamed n) (JObj (keys_in (map field_wire tf) rest))) as [v|]; [|discriminate].
+        rewrite keys_out_app.
+        specialize (IH (fun g Hg => Hgood g (or_intror Hg)) Hn2 (N ++ map field_wire tf)).
+        destruct (serve D env seen more (keys_out (N ++ map field_wire tf) rest)); [reflexivity|].
+        exfalso. assert (X : false = true); [|discriminate]. apply IH.
+        intros k Hk Hin. apply in_app_or in Hin. destruct Hin as [Hin|Hin].
+        * apply (HN k); [apply in_or_app; right; exact Hk|exact Hin].
+        * apply (Hdis k); [rewrite Hnames; exact Hin|exact Hk].
+      + intros k Hk. apply HN. apply in_or_app. left. rewrite Hnames. exact Hk.
+    - destruct (field_value seen fd) as [v|]; [|congruence].
+      assert (Hno : names_of fd = []) by (unfold names_of; rewrite Efl; reflexivity).
+      rewrite Hno in HN. cbn [app] in HN.
+      specialize (IH (fun g Hg => Hgood g (or_intror Hg)) Hn2 N HN).
+      destruct (serve D env seen more (keys_out N rest)); [reflexivity|discriminate].
+  Qed.
+
+  Lemma keys_out_nil (m : list (string * json)) : keys_out [] m = m.
+  Proof. unfold keys_out. induction m as [|e r IH]; [reflexivity|]. cbn. f_equal. exact IH. Qed.
+
+  (* acceptance of the whole struct *)
+  Theorem mixed_struct_accepts fields m :
+    let own := filter (fun fd => negb (f_flatten fd)) fields in
+    NoDup (map field_wire own) -> NoDup (map f_ident own) -> NoDup (map fst m) ->
+    (forall fd, In fd own -> member_ok D Dh m fd <> None) ->
+    (forall fd, In fd fields -> f_flatten fd = true ->
+       exists n a b c tf, strip_box (f_ty fd) = RNamed n /\ find_item n env = Some (IStruct a b c tf) /\
+                          existsb f_flatten tf = false /\
+                          is_some (D (RNamed n) (JObj (keys_in (map field_wire tf) (filter (not_own own) m)))) = true) ->
+    NoDup (flat_map names_of fields) ->
+    is_some (deser_struct D Dh env fields m) = true.
+  Proof.
+    intros own Hw Hi Hnd Hok Hfl Hnames. unfold deser_struct. fold own.
+    destruct (claim_ok (deser_field D Dh) own Hw Hi m Hnd) as [seen [Hc Hs]].
+    - intros k v f Hin Ef. destruct (find_field_some _ _ _ Ef) as [Hfin Hfw].
+      specialize (Hok f Hfin). unfold member_ok in Hok.
+      rewrite <- Hfw in Hin. rewrite (in_obj_get0 m _ _ Hnd Hin) in Hok.
+      destruct (deser_field D Dh f v) as [x|]; [exists x; reflexivity|congruence].
+    - rewrite Hc, is_some_option_map. rewrite <- (keys_out_nil (filter (not_own own) m)).
+      apply serve_mixed; [|exact Hnames|intros k _ []].
+      intros fd Hfd. unfold member_good. destruct (f_flatten fd) eqn:Efl; [exact (Hfl fd Hfd Efl)|].
+      assert (Hfo : In fd own) by (unfold own; apply filter_In; split; [exact Hfd|rewrite Efl; reflexivity]).
+      specialize (Hok fd Hfo). unfold member_ok in Hok. unfold field_value. rewrite (Hs fd Hfo).
+      destruct (obj_get (field_wire fd) m) as [v|].
+      + destruct (deser_field D Dh fd v); [discriminate|congruence].
+      + unfold field_value in Hok. cbn [assoc] in Hok. exact Hok.
+  Qed.
+End MixedStruct.
+
 Section Checker.
   Variables (s : aschema) (frags : list (string * (string * list sel))) (henv env : list ritem).
 
@@ -546,13 +660,68 @@ Section Checker.
     | _, _ => None
     end.
 
+  (* ---- object type with named-fragment spreads: fragments declared on the same object type whose
+     own selection consists of fields; each becomes a flattened member of plain-struct type *)
+  Definition frag_fields (t : string) (n : string) : option (list sel) :=
+    match assoc n frags with
+    | Some (c, fsel) => if String.eqb c t && forallb is_field fsel && forallb not_typename fsel then Some fsel else None
+    | None => None
+    end.
+
+  Definition sentries (t : string) (sels : list sel) : list (string * (string * list sel)) :=
+    flat_map (fun x => match x with
+                       | SField _ _ _ => [sel_entry x]
+                       | SSpread n => match frag_fields t n with Some fsel => map sel_entry fsel | None => [] end
+                       | _ => [] end) sels.
+
+  Definition spread_names (sels : list sel) : list string :=
+    flat_map (fun x => match x with SSpread n => [n] | _ => [] end) sels.
+
+  Definition smember_need (rec : string -> string -> list sel -> option nat) (t : string) (fd : rfield) (x : sel) : option nat :=
+    match x with
+    | SField _ _ _ => if f_flatten fd then None else pair_need rec t fd x
+    | SSpread n =>
+        match frag_fields t n, strip_box (f_ty fd), find_item n env with
+        | Some fsel, RNamed n', Some (IStruct _ _ _ tf) =>
+            if f_flatten fd && String.eqb n' n && negb (existsb f_flatten tf) &&
+               lstr_eqb (map field_wire tf) (map (fun y => fst (sel_entry y)) fsel)
+            then match fsel with [] => None | _ => rec n t fsel end
+            else None
+        | _, _, _ => None
+        end
+    | _ => None
+    end.
+
+  Definition objs_need (rec : string -> string -> list sel -> option nat) (name t : string) (sels : list sel) : option nat :=
+    let msels := filter (fun x => match x with SField _ _ _ => not_typename x | _ => true end) sels in
+    if negb (forallb (fun x => match x with
+                               | SField _ _ _ => true
+                               | SSpread n => match frag_fields t n with Some _ => true | None => false end
+                               | _ => false end) sels &&
+             nodup_str (spread_names sels) && nodup_str (map fst (sentries t sels)) && negb (is_prim name))
+    then None else
+    match find_item name env with
+    | Some (IStruct _ _ _ fields) =>
+        let own := filter (fun fd => negb (f_flatten fd)) fields in
+        if negb (nodup_str (map field_wire own) && nodup_str (map f_ident own) &&
+                 Nat.eqb (List.length fields) (List.length msels))
+        then None else
+        match map_opt (fun p => smember_need rec t (fst p) (snd p)) (combine fields msels) with
+        | Some needs => Some (S (list_max needs))
+        | None => None
+        end
+    | _ => None
+    end.
+
+  Definition has_spread (sels : list sel) : bool := existsb (fun x => match x with SSpread _ => true | _ => false end) sels.
+
   (* Some B: the type `name` implements the selection `sels` on type t, and its deserializer needs fuel B *)
   Fixpoint sel_need (fuel : nat) (name t : string) (sels : list sel) {struct fuel} : option nat :=
     match fuel with
     | O => None
     | S f =>
         match find_kind_sdl s t with
-        | Some KObject => obj_need (sel_need f) name t sels
+        | Some KObject => if has_spread sels then objs_need (sel_need f) name t sels else obj_need (sel_need f) name t sels
         | Some KInterface | Some KUnion => abs_need (sel_need f) name t sels
         | _ => None
         end
@@ -1134,11 +1303,218 @@ Section Soundness.
         apply (Hsubkeys sb y Hsb Hy a n sb' Hf). rewrite <- Hwk, Hgw. reflexivity.
   Qed.
 
-  Theorem sel_accepts : forall fuel, Accepts (sel_need s henv env fuel).
+
+  (* ---- CollectFields on a selection of fields and spreads of field-only fragments on the same object type *)
+  Fixpoint vis_after (names vis : list string) : list string :=
+    match names with [] => vis | n :: r => vis_after r (n :: vis) end.
+
+  Lemma frag_fields_some t n fsel : frag_fields frags t n = Some fsel ->
+    exists c, assoc n frags = Some (c, fsel) /\ c = t /\ forallb is_field fsel = true /\ forallb not_typename fsel = true.
+  Proof.
+    unfold frag_fields. destruct (assoc n frags) as [[c fs]|]; [|discriminate].
+    destruct (String.eqb c t && forallb is_field fs && forallb not_typename fs) eqn:E; [|discriminate].
+    intros H. inversion H; subst fs. apply andb_true_iff in E. destruct E as [E H3]. apply andb_true_iff in E. destruct E as [H1 H2].
+    apply String.eqb_eq in H1. exists c. repeat split; assumption.
+  Qed.
+
+  Lemma collect_spreads f t : find_kind_sdl s t = Some KObject -> forall sels vis,
+    forallb (fun x => match x with
+                      | SField _ _ _ => true
+                      | SSpread n => match frag_fields frags t n with Some _ => true | None => false end
+                      | _ => false end) sels = true ->
+    NoDup (spread_names sels) -> (forall n, In n (spread_names sels) -> ~ In n vis) ->
+    collect_fields s frags (S (S f)) t vis sels = (sentries frags t sels, vis_after (spread_names sels) vis).
+  Proof.
+    intros Hk. change (S (S f)) with (S (S f)). intros sels.
+    remember (S f) as f1 eqn:Ef1. cbn [collect_fields]. unfold sentries, spread_names.
+    induction sels as [|x r IH]; intros vis Hsh Hnd Hvis; [reflexivity|].
+    cbn [forallb] in Hsh. apply andb_true_iff in Hsh. destruct Hsh as [Hx Hr].
+    cbn [flat_map]. destruct x as [a n sub| |n]; try discriminate.
+    - cbn [flat_map app] in Hnd, Hvis. rewrite (IH vis Hr Hnd Hvis). reflexivity.
+    - destruct (frag_fields frags t n) as [fsel|] eqn:Eff; [|discriminate].
+      destruct (frag_fields_some t n fsel Eff) as [c [Hac [-> [Hfl _]]]].
+      cbn [flat_map app] in Hnd, Hvis. inversion Hnd as [|? ? Hnin Hnd']; subst.
+      assert (Hm : mem_str n vis = false).
+      { destruct (mem_str n vis) eqn:E; [|reflexivity]. apply mem_str_In in E. exfalso. exact (Hvis n (or_introl eq_refl) E). }
+      rewrite Hm, Hac. rewrite (applies_object t t Hk), String.eqb_refl.
+      rewrite (collect_fields_plain s frags f t (n :: vis) fsel Hfl).
+      rewrite (IH (n :: vis) Hr Hnd').
+      + reflexivity.
+      + intros n' Hn' [E|Hin]; [subst n'; exact (Hnin Hn')|exact (Hvis n' (or_intror Hn') Hin)].
+  Qed.
+
+  Lemma nodup_flat_map_sub {A B} (g g' : A -> list B) (p : A -> bool) l :
+    NoDup (flat_map g l) -> (forall x, g' x = g x \/ g' x = []) -> NoDup (flat_map g' (filter p l)).
+  Proof.
+    induction l as [|x r IH]; intros Hnd Hg; [constructor|].
+    cbn [flat_map] in Hnd. apply NoDup_app_iff in Hnd. destruct Hnd as [H1 [H2 Hdis]].
+    cbn [filter]. destruct (p x); [|exact (IH H2 Hg)].
+    cbn [flat_map]. apply NoDup_app_iff. split; [|split].
+    - destruct (Hg x) as [E|E]; rewrite E; [exact H1|constructor].
+    - exact (IH H2 Hg).
+    - intros y Hy Hin. destruct (Hg x) as [E|E]; rewrite E in Hy; [|destruct Hy].
+      apply (Hdis y Hy). apply in_flat_map in Hin. destruct Hin as [z [Hz Hyz]]. apply filter_In in Hz.
+      apply in_flat_map. exists z. split; [exact (proj1 Hz)|].
+      destruct (Hg z) as [E'|E']; rewrite E' in Hyz; [exact Hyz|destruct Hyz].
+  Qed.
+
+
+  Lemma objs_sound rec : Accepts rec ->
+    forall name t sels B, find_kind_sdl s t = Some KObject -> objs_need s frags henv env rec name t sels = Some B ->
+    forall F, B <= F -> forall Fj m rt, In rt (possible s t) -> cobj s frags Fj rt sels m = true ->
+    is_some (deser henv F env (RNamed name) (JObj m)) = true.
+  Proof.
+    intros Hrec name t sels B Ek H F HF Fj m rt Hrt Hc.
+    assert (rt = t) as ->.
+    { unfold possible in Hrt. rewrite Ek in Hrt. destruct Hrt as [<-|[]]. reflexivity. }
+    unfold objs_need in H.
+    set (msels := filter (fun x => match x with SField _ _ _ => not_typename x | _ => true end) sels) in *.
+    match type of H with (if negb ?c then _ else _) = _ => destruct c eqn:EC; [|discriminate] end. cbn [negb] in H.
+    apply andb_true_iff in EC; destruct EC as [EC Hprim]. apply negb_true_iff in Hprim.
+    apply andb_true_iff in EC; destruct EC as [EC Hnd]. apply nodup_str_NoDup in Hnd.
+    apply andb_true_iff in EC; destruct EC as [Hshape Hsn]. apply nodup_str_NoDup in Hsn.
+    destruct (find_item name env) as [[nm d c fields| | | | | | | |]|] eqn:Ef; try discriminate.
+    set (own := filter (fun fd => negb (f_flatten fd)) fields) in *.
+    match type of H with (if negb ?c then _ else _) = _ => destruct c eqn:EC2; [|discriminate] end. cbn [negb] in H.
+    apply andb_true_iff in EC2; destruct EC2 as [EC2 Hlen]. apply Nat.eqb_eq in Hlen.
+    apply andb_true_iff in EC2; destruct EC2 as [Hw Hi]. apply nodup_str_NoDup in Hw. apply nodup_str_NoDup in Hi.
+    destruct (map_opt (fun p => smember_need s frags henv env rec t (fst p) (snd p)) (combine fields msels)) as [needs|] eqn:Em; [|discriminate].
+    inversion H; subst B. clear H.
+    destruct F as [|F]; [lia|].
+    (* the payload *)
+    destruct Fj as [|fj]; [discriminate|]. cbn [cobj] in Hc.
+    assert (Hcoll : collected s frags t sels = sentries frags t sels).
+    { unfold collected.
+      destruct (List.length frags) as [|lf] eqn:Elf.
+      - (* no fragments at all: then there is no spread, and the lists agree trivially *)
+        destruct frags; [|discriminate]. 
+        assert (Hns : forall x, In x sels -> match x with SField _ _ _ => True | _ => False end).
+        { intros x Hx. rewrite forallb_forall in Hshape. specialize (Hshape x Hx). destruct x as [| |n]; try discriminate; exact I. }
+        assert (Hf : forallb is_field sels = true).
+        { apply forallb_forall. intros x Hx. specialize (Hns x Hx). destruct x; try contradiction. reflexivity. }
+        rewrite (collect_fields_plain s [] 0 t [] sels Hf). cbn [fst].
+        assert (Hse : sentries [] t sels = map sel_entry sels).
+        { unfold sentries. clear -Hns. induction sels as [|x r IH]; [reflexivity|]. cbn [flat_map map].
+          pose proof (Hns x (or_introl eq_refl)). destruct x; try contradiction. cbn [app]. f_equal. apply IH. intros y Hy. apply Hns. right. exact Hy. }
+        rewrite Hse. apply merge_fields_nodup. rewrite Hse in Hnd. exact Hnd.
+      - rewrite (collect_spreads lf t Ek sels [] Hshape Hsn (fun n _ X => X)). cbn [fst].
+        apply merge_fields_nodup. exact Hnd. }
+    rewrite Hcoll in Hc.
+    apply andb_true_iff in Hc. destruct Hc as [Hc Hall]. apply andb_true_iff in Hc. destruct Hc as [Hmnd Hkeys].
+    apply nodup_str_NoDup in Hmnd. rewrite forallb_forall in Hall.
+    pose proof Hshape as Hshape'. rewrite forallb_forall in Hshape'.
+    (* pairing facts *)
+    assert (Hpair : forall fd x, In (fd, x) (combine fields msels) -> exists nd, smember_need s frags henv env rec t fd x = Some nd /\ nd <= F).
+    { intros fd x Hx. destruct (map_opt_in _ _ _ _ Em Hx) as [nd [Hpn Hin]]. exists nd. split; [exact Hpn|].
+      pose proof (in_list_max _ _ Hin). lia. }
+    assert (Hmsel : forall x, In x msels -> In x sels).
+    { intros x Hx. unfold msels in Hx. apply filter_In in Hx. exact (proj1 Hx). }
+    (* wire names of plain members are keys of selected fields *)
+    assert (Hown_field : forall g, In g own -> exists a n sb nd, In (g, SField a n sb) (combine fields msels) /\
+               pair_need s henv env rec t g (SField a n sb) = Some nd /\ nd <= F /\ String.eqb n "__typename" = false).
+    { intros g Hg. unfold own in Hg. apply filter_In in Hg. destruct Hg as [Hgf Hgp]. apply negb_true_iff in Hgp.
+      destruct (in_combine_exists fields msels g Hlen Hgf) as [x Hx].
+      destruct (Hpair g x Hx) as [nd [Hpn Hle]]. unfold smember_need in Hpn.
+      destruct x as [a n sb| |n].
+      - rewrite Hgp in Hpn. exists a, n, sb, nd. repeat split; try assumption.
+        pose proof (in_combine_r _ _ _ _ Hx) as Hxm. unfold msels in Hxm. apply filter_In in Hxm. destruct Hxm as [_ Hnt].
+        unfold not_typename in Hnt. cbn [sel_entry fst snd] in Hnt. apply negb_true_iff in Hnt. exact Hnt.
+      - discriminate.
+      - destruct (frag_fields frags t n); [|discriminate]. destruct (strip_box (f_ty g)); try discriminate.
+        destruct (find_item n env) as [[]|]; try discriminate. rewrite Hgp in Hpn. cbn [andb] in Hpn. discriminate. }
+    cbn [deser]. rewrite (prim_deser_none name (JObj m) Hprim), Ef.
+    apply (mixed_struct_accepts (deser henv F env) (deser henv F henv) env fields m); fold own; try assumption.
+    - (* plain members *)
+      intros g Hg. destruct (Hown_field g Hg) as [a [n [sb [nd [Hin [Hpn [Hle Hnt]]]]]]].
+      apply (member_accepts rec Hrec t t g a n sb nd fj F m Hpn Hle Hnt eq_refl).
+      apply Hall. unfold sentries. apply in_flat_map. exists (SField a n sb). split; [|left; reflexivity].
+      apply Hmsel. exact (in_combine_r _ _ _ _ Hin).
+    - (* flattened fragment members *)
+      intros fd Hfd Hfl. destruct (in_combine_exists fields msels fd Hlen Hfd) as [x Hx].
+      destruct (Hpair fd x Hx) as [nd [Hpn Hle]]. unfold smember_need in Hpn.
+      destruct x as [a n sb| |n]; [rewrite Hfl in Hpn; discriminate|discriminate|].
+      destruct (frag_fields frags t n) as [fsel|] eqn:Eff; [|discriminate].
+      destruct (strip_box (f_ty fd)) as [n'| | | |] eqn:Est; try discriminate.
+      destruct (find_item n env) as [[a0 b0 c0 tf| | | | | | | |]|] eqn:Efn; try discriminate.
+      match type of Hpn with (if ?c then _ else _) = _ => destruct c eqn:EC3; [|discriminate] end.
+      apply andb_true_iff in EC3; destruct EC3 as [EC3 Hwires]. apply andb_true_iff in EC3; destruct EC3 as [EC3 Hnf].
+      apply andb_true_iff in EC3; destruct EC3 as [_ Hnn]. apply String.eqb_eq in Hnn. subst n'.
+      apply negb_true_iff in Hnf.
+      assert (Hwires' : map field_wire tf = map (fun y => fst (sel_entry y)) fsel).
+      { clear -Hwires. revert Hwires. generalize (map field_wire tf) (map (fun y => fst (sel_entry y)) fsel).
+        induction l as [|x r IH]; intros [|y t0] H; cbn in H; try discriminate; [reflexivity|].
+        apply andb_true_iff in H. destruct H as [H1 H2]. apply String.eqb_eq in H1. f_equal; [exact H1|exact (IH _ H2)]. }
+      exists n, a0, b0, c0, tf. split; [reflexivity|]. split; [exact Efn|]. split; [exact Hnf|].
+      destruct (frag_fields_some t n fsel Eff) as [cc [Hac [_ [Hffl Hfnt]]]].
+      pose proof (Hmsel _ (in_combine_r _ _ _ _ Hx)) as Hxs.
+      assert (Hseg : forall y, In y fsel -> In (sel_entry y) (sentries frags t sels)).
+      { intros y Hy. unfold sentries. apply in_flat_map. exists (SSpread n). split; [exact Hxs|]. rewrite Eff. apply in_map. exact Hy. }
+      destruct fsel as [|y0 fs0] eqn:Efs; [discriminate|]. rewrite <- Efs in *.
+      apply (Hrec n t fsel nd Hpn F Hle (S fj) _ t); [unfold possible; rewrite Ek; left; reflexivity|].
+      apply (content_conforms t fsel m _ fj Hffl).
+      + (* keys of the fragment are distinct *)
+        unfold sentries in Hnd.
+        pose proof (flat_map_seg_nodup (fun x => match x with
+                       | SField _ _ _ => [sel_entry x]
+                       | SSpread n0 => match frag_fields frags t n0 with Some fsel0 => map sel_entry fsel0 | None => [] end
+                       | _ => [] end) sels (SSpread n) Hnd Hxs) as H0.
+        cbn beta iota in H0. rewrite Eff, map_map in H0. exact H0.
+      + unfold keys_in. apply nodup_keys_filter. apply nodup_keys_filter. exact Hmnd.
+      + intros e He. unfold keys_in in He. apply filter_In in He. destruct He as [_ Hk]. apply mem_str_In in Hk.
+        rewrite Hwires' in Hk. exact Hk.
+      + intros y Hy. unfold keys_in. rewrite obj_get_filter.
+        * rewrite obj_get_filter; [reflexivity|].
+          intros v. unfold not_own. cbn [fst]. rewrite find_field_absent; [reflexivity|].
+          intros g Hg Hgw. destruct (Hown_field g Hg) as [a [n1 [sb [nd1 [Hin [Hpn1 [_ _]]]]]]].
+          unfold pair_need in Hpn1. destruct (String.eqb_spec (field_wire g) (response_key a n1)) as [Hwk|]; [|discriminate].
+          unfold sentries in Hnd.
+          apply (flat_map_keys_disjoint _ sels (SSpread n) (SField a n1 sb) (sel_entry y) (sel_entry (SField a n1 sb)) Hnd Hxs
+                   (Hmsel _ (in_combine_r _ _ _ _ Hin))); [discriminate| |left; reflexivity|].
+          -- cbn beta iota. rewrite Eff. apply in_map. exact Hy.
+          -- cbn [sel_entry fst]. rewrite <- Hwk, Hgw. reflexivity.
+        * intros v. cbn [fst]. apply mem_str_In. rewrite Hwires'. apply in_map_iff. exists y. split; [reflexivity|exact Hy].
+      + intros y Hy. apply Hall. exact (Hseg y Hy).
+    - (* the key sets of the flattened members are pairwise disjoint *)
+      assert (Hnames : flat_map (names_of env) fields =
+                flat_map (fun x => match x with
+                                   | SSpread n => match frag_fields frags t n with
+                                                  | Some fsel => map fst (map sel_entry fsel) | None => [] end
+                                   | _ => [] end) msels).
+      { clear -Hpair Hlen. revert Hpair Hlen. generalize msels. induction fields as [|fd r IH]; intros [|x ms] Hp Hl; try discriminate; [reflexivity|].
+        cbn [flat_map]. f_equal.
+        - destruct (Hp fd x (or_introl eq_refl)) as [nd [Hpn _]]. unfold smember_need in Hpn. unfold names_of.
+          destruct x as [a n sb| |n]; try discriminate.
+          + destruct (f_flatten fd); [discriminate|reflexivity].
+          + destruct (frag_fields frags t n) as [fsel|]; [|discriminate].
+            destruct (strip_box (f_ty fd)) as [n'| | | |]; try discriminate.
+            destruct (find_item n env) as [[a0 b0 c0 tf| | | | | | | |]|] eqn:Efn; try discriminate.
+            match type of Hpn with (if ?c then _ else _) = _ => destruct c eqn:EC3; [|discriminate] end.
+            apply andb_true_iff in EC3; destruct EC3 as [EC3 Hwires]. apply andb_true_iff in EC3; destruct EC3 as [EC3 _].
+            apply andb_true_iff in EC3; destruct EC3 as [Hfl Hnn]. apply String.eqb_eq in Hnn. subst n'.
+            rewrite Hfl, Efn. rewrite map_map.
+            clear -Hwires. revert Hwires. generalize (map field_wire tf) (map (fun y => fst (sel_entry y)) fsel).
+            induction l as [|x r IH]; intros [|y t0] H; cbn in H; try discriminate; [reflexivity|].
+            apply andb_true_iff in H. destruct H as [H1 H2]. apply String.eqb_eq in H1. f_equal; [exact H1|exact (IH _ H2)].
+        - apply IH; [intros g y Hgy; apply Hp; right; exact Hgy|exact (f_equal pred Hl)]. }
+      rewrite Hnames. unfold msels.
+      apply (nodup_flat_map_sub (fun x => map fst (match x with
+                       | SField _ _ _ => [sel_entry x]
+                       | SSpread n0 => match frag_fields frags t n0 with Some fsel0 => map sel_entry fsel0 | None => [] end
+                       | _ => [] end))).
+      + unfold sentries in Hnd. clear -Hnd. revert Hnd. generalize sels. induction sels0 as [|x r IH]; intros H; [constructor|].
+        cbn [flat_map] in *. rewrite map_app in H. apply NoDup_app_iff in H. destruct H as [H1 [H2 H3]].
+        apply NoDup_app_iff. split; [exact H1|]. split; [exact (IH H2)|].
+        intros k Hk Hin. apply (H3 k Hk). clear -Hin. induction r as [|y r' IHr]; [destruct Hin|].
+        cbn [flat_map] in *. rewrite map_app. apply in_app_or in Hin. apply in_or_app. destruct Hin as [Hin|Hin]; [left; exact Hin|right; exact (IHr Hin)].
+      + intros x. destruct x as [a n sb| |n]; [right; reflexivity|right; reflexivity|].
+        destruct (frag_fields frags t n); [left; reflexivity|left; reflexivity].
+  Qed.
+
+  Theorem sel_accepts : forall fuel, Accepts (sel_need s frags henv env fuel).
   Proof.
     induction fuel as [|f IH]; intros name t sels B H; [discriminate|].
     cbn [sel_need] in H. destruct (find_kind_sdl s t) as [[| | | | |]|] eqn:Ek; try discriminate.
-    - exact (obj_sound _ IH name t sels B Ek H).
+    - destruct (has_spread sels); [exact (objs_sound _ IH name t sels B Ek H)|exact (obj_sound _ IH name t sels B Ek H)].
     - exact (abs_sound _ IH name t sels B H).
     - exact (abs_sound _ IH name t sels B H).
   Qed.
@@ -1153,7 +1529,7 @@ Definition certify (s : aschema) (henv env : list ritem) (doc : list qdef) (op :
       match root_type s k with
       | Some root =>
           match find_kind_sdl s root with
-          | Some KObject => sel_need s henv env (S (fold_right (fun y a => sel_size y + a) 0 sels)) "ResponseData" root sels
+          | Some KObject => sel_need s (frag_defs doc) henv env (S (fold_right (fun y a => sel_size y + a) 0 sels)) "ResponseData" root sels
           | _ => None
           end
       | None => None
